@@ -48,7 +48,7 @@ def oracle(case, tool, ob):
                                     "print_file() hands an uninitialised File_holder to addUseRefNames(), which writes to files->create")
         if has_attr(case):
             return (KNOWN_PY, f"exp2python ends with {st} on a valid schema that has an entity attribute (no ERROR printed)")
-        if any(l.startswith("func ") for l in case.proto):
+        if any(l.startswith("func ") or l.startswith("alg function ") for l in case.proto):
             return (KNOWN_PY_FUNC, f"exp2python ends with {st} on a valid schema that has a FUNCTION with a parameter and no entity attribute (no ERROR printed)")
     if case.cls == "undefined-schema" and crashed:
         return (f"{tool}:undefined-schema:crash", f"{tool} ends with {st} on a file whose only fault is an interface clause naming an undefined schema "
